@@ -5,6 +5,7 @@ import (
 	"context"
 	"fmt"
 	"io/fs"
+	"math"
 	"net"
 	"net/http"
 	"net/netip"
@@ -1005,11 +1006,30 @@ func InitModule() {
 	initBlockedServices()
 }
 
+// idGeneratorSeed returns the seed for the generator of filtering-list IDs.  It
+// is the current time, as before, unless a list from the configuration already
+// has a greater ID: block and allow lists share their ID space and their files,
+// so a new list must never get the ID of a configured one, which used to happen
+// when lists were added after a restart that followed the previous start within
+// a few seconds.
+func idGeneratorSeed(c *Config) (seed int32) {
+	seed = int32(time.Now().Unix())
+	for _, flts := range [][]FilterYAML{c.Filters, c.WhitelistFilters} {
+		for _, f := range flts {
+			if f.ID > int(seed) && f.ID < math.MaxInt32 {
+				seed = int32(f.ID)
+			}
+		}
+	}
+
+	return seed
+}
+
 // New creates properly initialized DNS Filter that is ready to be used.  c must
 // be non-nil.
 func New(c *Config, blockFilters []Filter) (d *DNSFilter, err error) {
 	d = &DNSFilter{
-		idGen:                  newIDGenerator(int32(time.Now().Unix())),
+		idGen:                  newIDGenerator(idGeneratorSeed(c)),
 		bufPool:                syncutil.NewSlicePool[byte](rulelist.DefaultRuleBufSize),
 		safeSearch:             c.SafeSearch,
 		refreshLock:            &sync.Mutex{},
